@@ -721,10 +721,13 @@ func (n *Network) Deliver(l *Link, k int) int {
 		return 0
 	}
 	if l.To.closed {
-		// receiver is gone: discard and reset the connection
+		// The receiver has closed its socket: its kernel answers with a reset. The
+		// writer's further writes fail (EPIPE). The opposite direction is not
+		// touched: whatever the closed endpoint had written, and its FIN, were
+		// sent before the reset and are still delivered in order (a reader that
+		// has received the FIN sees end-of-stream, as on Linux).
 		l.inflight = nil
 		l.rst = true
-		l.To.out.rst = true
 		n.cond.Broadcast()
 		return k
 	}
